@@ -13,7 +13,7 @@ MAXOPS = 9
 
 # the confirmed defects of the unchanged tree are kept out of the broad enumeration and exercised by dedicated units,
 # so that each of them shows up under one unit name with a handful of vectors (set to False to enumerate them too)
-ISOLATE = True
+ISOLATE = False
 
 
 def opname(op):
